@@ -231,7 +231,7 @@ def model_mismatches(cases, results, name):
 
 def run(ctx):
     rng = ctx.rng
-    n = 400 if ctx.tier == "quick" else 4000
+    n = 300 if ctx.tier == "quick" else 4000
     if ctx.replay:
         rp = json.load(open(ctx.replay))
         cases = [rp["case"]]
@@ -322,7 +322,7 @@ MANIFEST = {
              "k<=8 Stops released before Run / racing Run / while a body is blocked / during cleanup / after exit; further Run calls), and the same script drives the model's LTS inside Coq; "
              "hang flag, start, Run's error class, commits, attempts, Close count of every instance, IncMap creation order, returned Stops, refused Runs are compared; "
              "an implementation-side oracle checks the statement directly (every call returns, each Close exactly once, no commit after a Stop returned, further Runs refused, distinct error classes)."),
-    "level_note": ("Trusted: Coq kernel; the hand-written model (tie = phase-scripted differential testing: 400 quick / 4000 thorough scripts, so a code change is caught only if a script reaches it); "
+    "level_note": ("Trusted: Coq kernel; the hand-written model (tie = phase-scripted differential testing: 300 quick / 4000 thorough scripts, so a code change is caught only if a script reaches it); "
                    "Go's mutex/channel/defer semantics as the model's primitive steps. Partial: the goroutine scheduler is only sampled (the driver lets released Stops settle for 3 ms; a differing case is "
                    "re-run once before it counts); liveness is a decreasing measure plus enabledness, scheduler fairness is assumed; a Nested resource's drain is the same theorem instantiated for the inner context, "
                    "not a single composed LTS; real FailureDetector/TCPMailboxes Close are not driven by this check."),
